@@ -58,10 +58,15 @@ func Weight(v string) uint64 {
 type Shared bool
 
 func (s Shared) value(class string, key int) string {
-	if s {
-		return class
+	v := class
+	if !s {
+		v = fmt.Sprintf("%s%d", class, key)
 	}
-	return fmt.Sprintf("%s%d", class, key)
+	if class == "b" {
+		// the heavy class is also long: longer than a hash, longer than hash+weight
+		v += "-0123456789abcdef0123456789abcdef0123456789abcdef"
+	}
+	return v
 }
 
 type Op struct {
